@@ -63,6 +63,69 @@ EXPECT_CHECK_ELEMENT = [
 ]
 
 
+def member_sources(fn):
+    """What the set handed to TagSet(...) in `fn` is made of, whatever the spelling (set() + update, set display with unpacking, union):
+    -> ({(condition, "each of" | "the item", source text)}, None) or (None, reason)."""
+    from ..astq import single_defs
+    rets = [n for n in walk_local(fn) if isinstance(n, ast.Return) and isinstance(n.value, ast.Call) and is_name(n.value.func, "TagSet") and len(n.value.args) == 1]
+    if len(rets) != 1:
+        return None, f"{len(rets)} returns of TagSet(...)"
+    defs = single_defs(fn)
+    out = set()
+
+    def cond_join(c, extra):
+        return extra if not c else (c if not extra else f"{c} and {extra}")
+
+    def items(e, c):
+        """e evaluates to an iterable whose items all go into the set"""
+        if isinstance(e, ast.IfExp):
+            return items(e.body, cond_join(c, norm(e.test))) and items(e.orelse, cond_join(c, f"not {norm(e.test)}"))
+        if isinstance(e, (ast.Set, ast.Tuple, ast.List)):
+            return all(one(x, c) for x in e.elts)
+        if isinstance(e, ast.Name) and e.id in defs:
+            return items(defs[e.id], c)
+        if isinstance(e, ast.Call) and isinstance(e.func, ast.Name) and e.func.id in ("set", "frozenset", "list", "tuple") and len(e.args) <= 1 and not e.keywords:
+            return items(e.args[0], c) if e.args else True
+        if isinstance(e, ast.BinOp) and isinstance(e.op, ast.BitOr):
+            return items(e.left, c) and items(e.right, c)
+        if isinstance(e, ast.Call) and isinstance(e.func, ast.Attribute) and e.func.attr == "union" and not e.keywords:
+            return items(e.func.value, c) and all(items(a, c) for a in e.args)
+        if isinstance(e, (ast.Attribute, ast.Name)):
+            out.add((c or "always", "each of", norm(e)))
+            return True
+        return False
+
+    def one(x, c):
+        if isinstance(x, ast.Starred):
+            return items(x.value, c)
+        out.add((c or "always", "the item", norm(x)))
+        return True
+    arg = rets[0].value.args[0]
+    if isinstance(arg, ast.Name) and arg.id not in defs:
+        # an accumulator: M = set() ... M.update(E) / M.add(x) ... return TagSet(M)
+        M = arg.id
+        uses = [n for n in ast.walk(fn) if isinstance(n, ast.Name) and n.id == M]
+        seen = 1
+        for st in walk_local(fn):
+            c = " and ".join(sorted(conds(st, fn))) if isinstance(st, (ast.Assign, ast.Expr)) else ""
+            if isinstance(st, ast.Assign) and len(st.targets) == 1 and is_name(st.targets[0], M):
+                if c or not items(st.value, ""):
+                    return None, f"{M} starts as {norm(st.value)}"
+                seen += 1
+            elif isinstance(st, ast.Expr) and isinstance(st.value, ast.Call) and isinstance(st.value.func, ast.Attribute) and is_name(st.value.func.value, M) \
+                    and st.value.func.attr in ("update", "add") and len(st.value.args) == 1 and not st.value.keywords:
+                good = items(st.value.args[0], c) if st.value.func.attr == "update" else one(st.value.args[0], c)
+                if not good:
+                    return None, f"unrecognised contribution {norm(st)}"
+                seen += 1
+        if seen != len(uses):
+            return None, f"{M} is used in other ways"
+        return out, None
+    if not items(arg, ""):
+        return None, f"unrecognised set expression {norm(arg)}"
+    return out, None
+
+
 def run(repo, chk):
     chk.explanation = (
         "Decides the structural clauses of C11. The matching rule is read as a decision table from tags.match_tag and selector.check_element "
@@ -216,13 +279,13 @@ def run(repo, chk):
     mg = repo.func("tags._merge")
     fm = facts_of(mg)
     pa, pb = (x.arg for x in mg.node.args.args[:2])
-    accs = [t.split(" = ")[0] for t, c, n in fm.items if isinstance(n, ast.Assign) and t.endswith(" = set()")]
-    M = accs[0] if len(accs) == 1 else "<the member set>"
-    ok = all(fm.has(f"{M}.update({x}.members)", exactly=[f"isinstance({x}, TagSet)"]) and fm.has(f"{M}.update({{{x}}})", exactly=[f"not isinstance({x}, TagSet)"]) for x in (pa, pb)) \
-        and fm.has(f"return TagSet({M})", exactly=[]) \
-        and all(t in {f"{M}.update({x}.members)" for x in (pa, pb)} | {f"{M}.update({{{x}}})" for x in (pa, pb)} | {f"{M}.update({x}.members if isinstance({x}, TagSet) else {{{x}}})" for x in (pa, pb)}
-                for t, _, n in fm.items if t.startswith(f"{M}.") and not isinstance(n, ast.Assign))
-    chk.ob("R11.4", "tags._merge:union", ok, mg.where, "a & b is the union of both sides' members")
+    srcs, why_ = member_sources(mg.node)
+    want_ = set()
+    for x in (pa, pb):
+        want_ |= {(f"isinstance({x}, TagSet)", "each of", f"{x}.members"), (f"not isinstance({x}, TagSet)", "the item", x)}
+    ok = srcs == want_
+    chk.ob("R11.4", "tags._merge:union", ok, mg.where, "a & b is the union of both sides' members: the set handed to TagSet collects " +
+           (", ".join(f"{k} {t} when {c}" for c, k, t in sorted(srcs)) if srcs is not None else f"<not a recognised set construction: {why_}>"))
     eq = repo.func("tags.TagSet.__eq__")
     chk.ob("R11.4", "tags.TagSet.__eq__:by-members", norm(returns_of(eq.node)[0].value) == "isinstance(other, TagSet) and other.members == self.members", eq.where, "tag sets are equal iff their members are")
     for c in ("Tag", "TagSet"):
